@@ -43,6 +43,8 @@ where
     // squares of the alphabet itself (roots known)
     let sq: Vec<BigUint> = ints.iter().take(40).map(|x| (x * x) % p).collect();
     ints.extend(sq);
+    // elements whose in-memory (Montgomery) residue has a limb pattern (saturated limbs, limbs equal to the modulus limb)
+    ints.extend(alpha::values_of_residues(p, limbs, &alpha::limb_pattern_residues(p, limbs, 3, ctx.tier.pick(false, true))));
     let ints = alpha::dedup(ints);
     let els: Vec<F> = ints.iter().map(|x| mk(x)).collect();
     let inj = ctx.injecting("C18");
@@ -123,25 +125,41 @@ where
 pub fn run(ctx: &Ctx) -> (&'static str, &'static str) {
     prime_field::<Fq, MQ>(ctx, "Fq", q(), 6, fq, fq_int, Some(|x: &Fq| x.sgn0()));
     prime_field::<Fr, MR>(ctx, "Fr", r(), 4, fr, fr_int, None);
-    // negate_if on Fq
-    ctx.sweep(
-        "Fq.negate_if",
-        4,
-        |i| json!({"case": i}),
-        |i| {
-            let y = fq(&BigUint::from(5u32 + i as u32));
-            let mut a = y;
-            a.negate_if(Sgn0Result::Negative);
-            let mut b = y;
-            b.negate_if(Sgn0Result::NonNegative);
-            let mut ny = y;
-            ny.negate();
-            if a != ny || b != y {
-                return Err(Fail::new("negate_if wrong"));
-            }
-            Ok("negate_if")
-        },
-    );
+    // negate_if on Fq: the C08 boundary alphabet and every limb-pattern residue (a branch-free negation written on the raw limbs
+    // has its own borrow chain), as a value and in canonical form
+    {
+        let mut rngn = ctx.rng("c18.fq.negate_if");
+        let mut ys = alpha::field_values(q(), 6, &mut rngn, 8);
+        ys.extend(alpha::values_of_residues(q(), 6, &alpha::limb_pattern_residues(q(), 6, 3, true)));
+        let ys = alpha::dedup(ys);
+        ctx.sweep(
+            "Fq.negate_if",
+            ys.len() as u64,
+            |i| json!({"y": hex(&ys[i as usize])}),
+            |i| {
+                let yi = &ys[i as usize];
+                let y = fq(yi);
+                let mut a = y;
+                a.negate_if(Sgn0Result::Negative);
+                let mut b = y;
+                b.negate_if(Sgn0Result::NonNegative);
+                let want = if yi.is_zero() { BigUint::zero() } else { q() - yi };
+                // fq_int checks the canonical form of the raw limbs as well
+                if fq_int(&a) != want {
+                    return Err(Fail::new("Fq negate_if(Negative) is not the field negation"));
+                }
+                if fq_int(&b) != *yi || b != y {
+                    return Err(Fail::new("Fq negate_if(NonNegative) changed the element"));
+                }
+                let mut sum = a;
+                sum.add_assign(&y);
+                if !sum.is_zero() {
+                    return Err(Fail::new("Fq: y + negate_if(y, Negative) != 0"));
+                }
+                Ok(if yi.is_zero() { "zero" } else { "negate_if" })
+            },
+        );
+    }
 
     // ---------------- Fq2
     let qq = q();
@@ -322,6 +340,7 @@ pub fn run(ctx: &Ctx) -> (&'static str, &'static str) {
                 comp.push((alpha::pow2(64 * k) * m + alpha::pow2(320)) % qq);
             }
         }
+        comp.extend(alpha::values_of_residues(qq, 6, &alpha::limb_pattern_residues(qq, 6, ctx.tier.pick(2, 3), false)));
         let comp = alpha::dedup(comp);
         let nb = comp.len() as u64;
         let rad = [nb, nb];
